@@ -126,8 +126,15 @@ func main() {
 		}
 		if *noEvidence {
 			n := 0
+			known, _ := loadKnown(*root + "/known_findings.json")
 			for _, o := range c.Obls {
-				if o.Verdict != vOK {
+				isK := false
+				for _, k := range known {
+					if k.Status == "known" && k.Property == id && k.Rule == o.Rule && k.Key == o.Key {
+						isK = true
+					}
+				}
+				if o.Verdict != vOK && !isK {
 					n++
 					fmt.Printf("MUTANT-REPORT %s %s %s [%s] %s %s\n", id, o.Rule, o.Key, o.Verdict, o.Pos, o.Detail)
 				}
